@@ -151,10 +151,7 @@ func (e *Eval) args(f *ast.Field) map[string]interface{} {
 				}
 			}
 		}
-		if l, isList := v.([]interface{}); isList && l == nil {
-			v = []interface{}{} // gqlparser yields a nil slice for the literal []
-		}
-		out[a.Name] = v
+		out[a.Name] = normNilSlices(v) // gqlparser yields a nil slice for the literal []
 	}
 	return out
 }
@@ -180,7 +177,7 @@ func (e *Eval) field(o objRef, f *ast.Field, sub ast.SelectionSet) (interface{},
 	case o.obj == nil:
 		stored = e.Data.Roots[o.root][f.Name]
 		if o.root == "Mutation" {
-			e.Data.Counters[f.Name]++ // bookkeeping only: how often a mutation root field was executed
+			e.Data.Bump(f.Name) // bookkeeping only: how often a mutation root field was executed
 		}
 	case f.Name == "id" && o.obj.ID != "":
 		return o.obj.ID, true
@@ -262,4 +259,23 @@ func (e *Eval) complete(t *ast.Type, v Val, f *ast.Field, sub ast.SelectionSet) 
 		return nil, !nonNull
 	}
 	return nil, true
+}
+
+func normNilSlices(v interface{}) interface{} {
+	switch x := v.(type) {
+	case []interface{}:
+		if x == nil {
+			return []interface{}{}
+		}
+		for i := range x {
+			x[i] = normNilSlices(x[i])
+		}
+		return x
+	case map[string]interface{}:
+		for k := range x {
+			x[k] = normNilSlices(x[k])
+		}
+		return x
+	}
+	return v
 }
